@@ -271,13 +271,15 @@ def run(ctx):
                 ("corpus", ["-mode", "corpus", "-flagsets", 4]),
                 ("nearmiss", ["-mode", "nearmiss", "-flagsets", 1]),
                 ("random", ["-mode", "random", "-n", 60, "-flagsets", 1, "-oraclesample", 4]),
-                ("edge", ["-mode", "edge", "-n", 50, "-flagsets", 1, "-oraclesample", 4])]
+                ("edge", ["-mode", "edge", "-n", 46, "-flagsets", 1, "-oraclesample", 4]),
+                ("wide", ["-mode", "wide", "-n", 4, "-flagsets", 1, "-oraclesample", 4])]
     else:
         plan = [("corpusfiles", None),
                 ("corpus", ["-mode", "corpus", "-flagsets", 8]),
                 ("nearmiss", ["-mode", "nearmiss", "-flagsets", 8]),
                 ("random", ["-mode", "random", "-n", 400, "-flagsets", 8]),
-                ("edge", ["-mode", "edge", "-n", 250, "-flagsets", 8])]
+                ("edge", ["-mode", "edge", "-n", 250, "-flagsets", 8]),
+                ("wide", ["-mode", "wide", "-n", 80, "-flagsets", 2])]
     ood_future = pool.submit(ood_stream, ctx, tools, quick)
     scan_future = pool.submit(pl.scan_stream, ctx, tools, quick)
     terms, jsons, err = streams(ctx, tools, plan)
@@ -300,9 +302,10 @@ def run(ctx):
     if scan_err and not err:
         err = "scan stream: " + scan_err
     # the byte scanner disagrees with the specification / its model on a content: a failing input of its own
-    scan_bad.sort(key=lambda x: (len(x[0]["scan_content"]), x[0]["scan_content"]))
+    scan_bad.sort(key=lambda x: (x[0].get("len", len(x[0]["scan_content"])), x[0]["scan_content"]))
     for sj, code in scan_bad[:3]:
-        ctx.report({"scan_content": sj["scan_content"], "returned": sj["got"], "error": sj.get("err"),
+        ctx.report({"scan_content": sj["scan_content"] or "".join(p["s"] * p["n"] for p in sj.get("scan_pieces") or []),
+                    "returned": sj["got"], "error": sj.get("err"),
                     "verdict": "protoFileHasGoPackage on a file with this content " +
                                ("disagrees with `declares option go_package` (token structure of the content)"
                                 if code == 1 else "agrees with the specification but not with the model scan_go_package"),
@@ -335,8 +338,11 @@ def run(ctx):
     widened = None
     if (held or differs) and not failing and not obad:
         # something broke but no case violates the specification yet: search wider before saying so
-        wplan = [("random", ["-mode", "random", "-n", 120, "-flagsets", 2, "-oraclesample", 4]),
-                 ("edge", ["-mode", "edge", "-n", 80, "-flagsets", 2, "-oraclesample", 4])]
+        # … and beyond the caps of the regular generator: depth up to 7, up to 42 files, long names, files of
+        # several read buffers, up to 8 -include entries (a cap coinciding with a threshold in the code hides a defect)
+        wplan = [("random", ["-mode", "random", "-n", 80, "-flagsets", 2, "-oraclesample", 4]),
+                 ("edge", ["-mode", "edge", "-n", 60, "-flagsets", 2, "-oraclesample", 4]),
+                 ("wide", ["-mode", "wide", "-n", 60, "-flagsets", 2, "-oraclesample", 4])]
         wt, wj, werr = streams(ctx, tools, wplan, tagsuffix="-widened", seed=ctx.seed + 7919)
         widened = {"cases": len(wj), "failing_inputs": 0}
         if not werr and wt:
